@@ -19,9 +19,9 @@ where
   }
   pub fn execute(&self, source: Observable<'a, Item>) -> Observable<'a, Item> {
     let default = self.default.clone();
-    let emitted = Arc::new(RwLock::new(false));
 
     Observable::<Item>::create(move |s| {
+      let emitted = Arc::new(RwLock::new(false));
       let default_complete = default.clone();
 
       let emitted_next = Arc::clone(&emitted);
